@@ -556,10 +556,11 @@ pub fn gen(ctx: &mut Ctx) {
             // many entries, disjoint in effect (count 0 / NULL) and the intro fields at 2^12 / 2^16 with nothing behind them
             ctx.req(&format!("alloc04 {} 4096 0 0 0 0 0", which));
             ctx.req(&format!("alloc04 {} 4096 16 7 0 16 0", which));
-            // DEFECT-T11 (overlapping entries): index entries may point at the SAME store bytes and each gets its own decoded
-            // copy, so the parsed header keeps entries x store bytes (C04.overlap_accepted; rpm rejects such headers). The small
-            // members of the family stay under the limits; the last two of each kind are beyond them on the current code
-            // (verdict `fails:alloc-kept-quadratic`; theorem C04.harness_limit_refuted is the (512, 8192) BIN case).
+            // DEFECT-T11 (overlapping entries), kept as a regression family: index entries that point at the SAME store bytes
+            // each got their own decoded copy, so an accepted header kept entries x store bytes (16.5 KB in, 4 MiB kept; rpm
+            // rejects such headers). parse_header now charges every entry's data against a budget of the data section's length
+            // and refuses the header when it is exceeded: every member of the family is `parse=err` (C04.overlap_refused); the
+            // last two of each kind are beyond the limits of Spec/Alloc.lean if the budget check is ever lost.
             for (n, s) in [(16u64, 256u64), (64, 1024), (256, 4096), (512, 8192)] {
                 ctx.req(&format!("alloc04 {} {} {} 7 0 {} 0", which, n, s, s));
                 ctx.req(&format!("alloc04 {} {} {} 4 0 {} 0", which, n, s, s / 4));
